@@ -111,6 +111,16 @@ def run_case(seed, index, props):
         except ZeroDivisionError: got = 'ZeroDivisionError'
         if got != want: bad('C17 calendar expression value differs from the operator semantics', f'{d}: got {got} want {want}')
     r = Resource('x', c)
+    # the same Resource object queried repeatedly, several times of day on the same day (validity bounds may carry a time of day)
+    for _ in range(3):
+        day = rng.randint(1, 28)
+        for hour in (0, 13, 6, 20):
+            d = datetime(2024, 1, day, hour)
+            try: want = sem(d)
+            except ZeroDivisionError: continue
+            try: got = r.get_available_units(d)
+            except ZeroDivisionError: continue
+            if got != (0 if want is None else want): bad('C17 resource capacity differs from its calendar (0 where the calendar has no information)', f'{d}: got {got} want {want}')
     d0 = datetime(2024, 1, rng.randint(1, 28), rng.choice([0, 9]))
 
     def av(d):
